@@ -221,6 +221,11 @@ def boundV (absent : Bool) (v : V A) : Option (Option Int) :=
 def sliceE (a : V A) (loAbs : Bool) (lo : V A) (hiAbs : Bool) (hi : V A) : V A :=
   match a, boundV loAbs lo, boundV hiAbs hi with
   | .chars l, some x, some y => sliceV l x y
+  | .str l, some x, some y =>
+    -- a `[]rune` (code points)
+    let lo' := x.getD 0
+    let hi' := y.getD l.length
+    if 0 ≤ lo' ∧ lo' ≤ hi' ∧ hi' ≤ l.length then .str ((l.take hi'.toNat).drop lo'.toNat) else .err "slice bounds out of range"
   | _, _, _ => .err "slice"
 
 def evalE [DecidableEq A] (cx : Ctx A) (env : Env A) : E → V A
